@@ -476,6 +476,55 @@ def step_ordered_window(g: G, sch: Sch, prefer=()):
     return nd
 
 
+def window_pair(g: G, sch: Sch):
+    """Two adjacent ordered-window extends that differ in ONE window parameter only (order_by permuted, partition
+    list -> 1 or shortened, reverse differs) with independent assignments; the second is valid on top of the first.
+    Returns (first, second, variant) node specs without "src", or None."""
+    first = None
+    for _ in range(6):
+        cand = step_ordered_window(g, sch)
+        if cand is not None and len(cand["order_by"]) >= 2:
+            first = cand
+            break
+    if first is None:
+        return None
+    variant = g.pick(["order_permuted", "partition_to_1", "reverse_differs", "partition_shortened"])
+    second = {"op": "extend", "order_by": list(first["order_by"]), "partition_by": first.get("partition_by", 1)}
+    if first.get("reverse"):
+        second["reverse"] = list(first["reverse"])
+    if variant == "order_permuted":
+        second["order_by"] = list(reversed(first["order_by"]))
+    elif variant == "partition_to_1":
+        second["partition_by"] = 1
+    elif variant == "reverse_differs":
+        k = g.pick(first["order_by"])
+        rv = set(first.get("reverse") or []) ^ {k}
+        if rv:
+            second["reverse"] = sorted(rv)
+        else:
+            second.pop("reverse", None)
+    elif isinstance(first.get("partition_by"), list) and first["partition_by"]:
+        second["partition_by"] = first["partition_by"][:-1] or 1
+    pb1 = first["partition_by"] if isinstance(first.get("partition_by"), list) else []
+    taken = {k for k, _ in first["ops"]} | set(first["order_by"]) | set(pb1)
+    for _, e in first["ops"]:
+        taken |= {a[1] for a in e[2] if a[0] == "col"}
+    ops2 = []
+    free_int = [n for n in S.POOLS["int"] if n not in taken and n != "id"]
+    if free_int:
+        ops2.append([g.pick(free_int), ["call", "_row_number", []]])
+    nonnull = [c for c in sch.of_type("int", "float", null=False) if c not in taken]
+    if nonnull and g.boolean():
+        src = g.pick(nonnull)
+        tgt = [n for n in S.POOLS[sch.cols[src]["type"]] if n not in taken and n != src and n != "id" and n not in [o[0] for o in ops2]]
+        if tgt:
+            ops2.append([g.pick(tgt), ["call", "cumsum", [["col", src]]]])
+    if not ops2:
+        return None
+    second["ops"] = ops2
+    return first, second, variant
+
+
 def step_project(g: G, sch: Sch):
     gb = _group_keys(g, sch, lo=0, hi=2)
     ops = []
@@ -887,7 +936,7 @@ def draw_program(draw, cfg=None):
                 break
         if cur is None:
             cur = a
-        cur = b.grow(cur, g.pick([1, 2, 2, 3]), weights={"extend": 8, "window": 2, "select_rows": 1, "drop_columns": 1, "select_columns": 1}, wander=0)
+        cur = b.grow(cur, g.pick([1, 2, 2, 3]), weights={"extend": 8, "window": 2, "ordered_window": 4, "select_rows": 1, "drop_columns": 1, "select_columns": 1}, wander=0)
         return b.finish(cur)
     cur = b.grow(b.heads[0], nsteps)
     return b.finish(cur)
